@@ -59,7 +59,12 @@ def zone_doc(rng):
     for e in extra:
         if blocks and rng.random() < 0.5:
             b = rng.choice(blocks)
-            b["ch"].insert(rng.randint(0, len(b["ch"])), e if rng.random() < 0.5 else {"t": "bzone", "lead": [], "v": e["v"]})
+            pos = rng.randint(0, len(b["ch"]))
+            bare = rng.random() < 0.5
+            # a bare zone at the indentation of an EMPTY block's header is, by Issue #259, that block's child: not generated as a sibling
+            if bare and pos > 0 and b["ch"][pos - 1]["t"] == "block" and not b["ch"][pos - 1]["ch"]:
+                bare = False
+            b["ch"].insert(pos, {"t": "bzone", "lead": [], "v": e["v"]} if bare else e)
         else:
             d["nodes"].insert(rng.randint(0, len(d["nodes"])), e)
     return d
